@@ -1,6 +1,7 @@
 """C08 — JS reads/writes structs with the real wasm32 repr(C) layout (structural clauses + rustc wasm32 layout oracle)."""
 import re
 import common as C
+import flow
 import tmpl
 import tables as T
 import wasmprobe
@@ -604,6 +605,50 @@ def run(ck, facts):
             detail = "(Scalars(%s), Scalars(%s..%s))" % (i_lit.get("v"), lo, "" if hi is None else hi)
         ck.expect(ok, "R6", "force-padding/threshold", detail, "padding of a nested two-scalar struct is forced for %s; the wasm legacy ABI pads every aggregate with MORE THAN TWO scalars, i.e. (Scalars(2), Scalars(3..))" % detail, C.loc(f2, arm.get("ln")))
 
+    # the padding of a struct is left to the caller (`maybePaddingFields(forcePadding, ..)`) exactly for aggregates of two SCALARS (transitively counted), the shape
+    # whose padding the legacy ABI decides by its surroundings -- not for structs with two fields
+    gfs = [f2 for f2 in tool.fn_list if "hir" in f2 and f2["path"].startswith("diplomat_tool::js::") and not f2.get("exp")]
+    nmp = 0
+    for f2 in gfs:
+        for n in C.walk(C.fn_body(f2)):
+            if n.get("k") == "if" and any("maybePaddingFields(forcePadding" in l_ for l_ in C.str_lits(n["t"])):
+                if any(x is not n and x.get("k") == "if" and any("maybePaddingFields(forcePadding" in l_ for l_ in C.str_lits(x["t"])) for x in C.walk(n["t"])):
+                    continue    # an enclosing condition (`if padding > 0`); the innermost one decides
+                nmp += 1
+
+                def cond_exprs(fn_, e_, depth=0):
+                    """the expressions a condition stands for: itself, the initialiser of the local it names, or -- for a parameter -- the argument of every call site"""
+                    e_ = C.strip(e_)
+                    if e_.get("k") != "local" or depth > 3:
+                        return [e_]
+                    d_ = dict(flow.defs_of(fn_)).get(e_.get("id"))
+                    if d_ and d_[0] == "expr":
+                        return cond_exprs(fn_, d_[1], depth + 1)
+                    if d_ and d_[0] == "param":
+                        params = [p_.get("id") if isinstance(p_, dict) else None for p_ in fn_["hir"].get("params") or []]
+                        j = params.index(e_.get("id")) if e_.get("id") in params else None
+                        outs = []
+                        for g_ in gfs:
+                            for c2 in C.calls_in(C.fn_body(g_)):
+                                if C.norm_path(c2.get("p") or C.callee(c2) or "") == C.norm_path(fn_["path"]) and j is not None:
+                                    args = ([c2["recv"]] + list(c2.get("a") or [])) if c2.get("k") == "mcall" else list(c2.get("a") or [])
+                                    if j < len(args):
+                                        outs += cond_exprs(g_, args[j], depth + 1)
+                        return outs or [e_]
+                    return [e_]
+
+                def is_two_scalars(c_):
+                    sides = [C.strip(c_.get("l") or {}), C.strip(c_.get("r") or {})] if c_.get("k") == "bin" and c_.get("op") == "Eq" else []
+                    has_count_ = any(x.get("k") == "field" and x.get("n") == "scalar_count" for sd in sides for x in C.walk(sd))
+                    two_ = any(sd.get("k") == "call" and (sd.get("ctor") or "").endswith("ScalarCount::Scalars") and sd.get("a") and C.strip(sd["a"][0]).get("v") == 2 for sd in sides)
+                    return has_count_ and two_
+                exprs = cond_exprs(f2, n["c"])
+                has_count = two = bool(exprs) and all(is_two_scalars(x_) for x_ in exprs)
+                ck.expect(has_count and two, "R6", "js::%s/caller-decides-padding-iff-two-scalars" % f2["name"], "scalar_count == Scalars(2)",
+                          "padding is delegated to the caller under a condition that is not `scalar_count == ScalarCount::Scalars(2)`: a two-FIELD struct with a slice or nested struct (3+ scalars) "
+                          "loses its padding slots in the flattened argument list, later arguments shift", C.loc(f2, n.get("ln")))
+    if nmp < 1:
+        ck.bad("R6", "js/caller-decides-padding/anchor", "no `maybePaddingFields(forcePadding, ..)` emission found in the JS backend")
     # scalar counts: a cell laid out as a tuple of n wasm scalars counts n scalars, every other leaf cell counts one
     sc = tool.fn("js::layout::type_size_alignment_and_scalar_count")
     mt_sc = next((n for n in C.walk(C.fn_body(sc)) if n.get("k") == "match" and (n.get("sadt") or "").endswith("hir::types::Type")), None)
